@@ -478,8 +478,15 @@ type c09Conc struct {
 // c09ConcScenario: n callers issue one Read each through a real client
 // session to a real server serving a session that answers each with its own
 // payload; sync or async connection.
-func c09ConcScenario(n int, sync bool) *explore.Scenario {
+func c09ConcScenario(n int, sync bool) *explore.Scenario { return c09ConcScenarioF(n, sync, false) }
+
+// sameFid: every caller reads the SAME fid (at a different offset, which
+// identifies the request), after one warm-up read on it.
+func c09ConcScenarioF(n int, sync, sameFid bool) *explore.Scenario {
 	name := fmt.Sprintf("concurrent/%d-callers/%s", n, map[bool]string{true: "sync-conn", false: "async-conn"}[sync])
+	if sameFid {
+		name += "/same-fid"
+	}
 	return &explore.Scenario{
 		Name:  name,
 		Cache: true,
@@ -492,12 +499,19 @@ func c09ConcScenario(n int, sync bool) *explore.Scenario {
 				if err != nil {
 					return
 				}
+				if sameFid {
+					c.Read(context.Background(), 500, make([]byte, 16), 0) // the fid has been read before
+				}
 				for i := 0; i < n; i++ {
 					res := &callResult{ID: 2 * (i + 1)}
 					st.calls = append(st.calls, res)
 					vsched.Go(fmt.Sprintf("caller%d", i), func() {
 						buf := make([]byte, 16)
-						k, err := c.Read(context.Background(), p9p.Fid(res.ID), buf, int64(res.ID))
+						fid := p9p.Fid(res.ID)
+						if sameFid {
+							fid = 500 // the offset identifies the request
+						}
+						k, err := c.Read(context.Background(), fid, buf, int64(res.ID))
 						res.Returned = true
 						res.Data = string(buf[:k])
 						if err != nil {
@@ -539,6 +553,9 @@ type echoSession struct{ recSession }
 
 func (s *echoSession) Read(ctx context.Context, fid p9p.Fid, p []byte, off int64) (int, error) {
 	vsched.Yield("S.Read", 0)
+	if fid == 500 {
+		fid = p9p.Fid(off) // same-fid scenarios: the offset identifies the request
+	}
 	m, err := resultFor(p9p.MessageTread{Fid: fid})
 	if err != nil {
 		return 0, err
@@ -552,6 +569,7 @@ func c09Scenarios() []*explore.Scenario {
 	for n := 2; n <= 6; n++ {
 		out = append(out, c09ConcScenario(n, false), c09ConcScenario(n, true))
 	}
+	out = append(out, c09ConcScenarioF(2, false, true), c09ConcScenarioF(3, false, true))
 	return out
 }
 
